@@ -60,6 +60,7 @@ type DgSpec struct {
 	At   int64 // ticks
 	Kind DgKind
 	ID   int
+	Size int // >0: the datagram is padded (with one filler option) to exactly this many bytes
 }
 
 type ClientScenario struct {
@@ -205,6 +206,15 @@ func buildDg(v6 bool, d DgSpec, serial int) []byte {
 		if d.Kind == DgOddOp {
 			p.OpCode = 3
 		}
+		if d.Size > 0 {
+			// filler option 225; values above 255 bytes are split by the encoder (2 header bytes per 255)
+			for f := 0; f <= d.Size; f++ {
+				p.UpdateOption(dhcpv4.OptGeneric(dhcpv4.GenericOptionCode(225), bytes.Repeat([]byte{0x30 + byte(serial)}, f)))
+				if len(p.ToBytes()) >= d.Size {
+					break
+				}
+			}
+		}
 		return p.ToBytes()
 	}
 	m := &dhcpv6.Message{MessageType: dhcpv6.MessageTypeReply, TransactionID: xid6(d.ID)}
@@ -223,6 +233,9 @@ func buildDg(v6 bool, d DgSpec, serial int) []byte {
 		return r.ToBytes()
 	case DgRequestOp, DgOddOp:
 		return m.ToBytes()[:3] // truncated header
+	}
+	if n := len(m.ToBytes()); d.Size >= n+4 {
+		m.AddOption(&dhcpv6.OptionGeneric{OptionCode: 65002, OptionData: bytes.Repeat([]byte{0x30 + byte(serial)}, d.Size-n-4)})
 	}
 	return m.ToBytes()
 }
